@@ -119,7 +119,8 @@ func (e *Engine) lookupFaults() error {
 				return e.viol("cannot open root: %v", err)
 			}
 			e.L.Reads, e.L.FailRead = 0, 0
-			nop := func(k, v atree.Value) (bool, error) { return true, nil }
+			seen := 0
+			nop := func(k, v atree.Value) (bool, error) { seen++; return seen < 1<<22, nil }
 			if err := m.IterateReadOnly(nop); err != nil {
 				return e.viol("fault-free iteration failed: %v", err)
 			}
